@@ -535,6 +535,14 @@ class QvmCpu:
         except IndexError:
             self.trap(TrapCode.STACK_EMPTY)
 
+    def _round_to_int(self, value):
+        # int(round(x)) for a float that may be inf or nan: such a
+        # value fits no integer cell
+        if isinstance(value, float) and not math.isfinite(value):
+            self.trap(TrapCode.INVALID_CELL_VALUE,
+                      type=CellType.LONG, value=value)
+        return int(round(value))
+
     def _bitwise(self, op):
         b = self.pop()
         a = self.pop()
@@ -684,7 +692,7 @@ class QvmCpu:
                       expected='numeric',
                       got=value.type)
 
-        result = int(round(value.value))
+        result = self._round_to_int(value.value)
         self.push(CellType.INTEGER, result)
 
     def _exec_clng(self):
@@ -695,7 +703,7 @@ class QvmCpu:
                       expected='numeric',
                       got=value.type)
 
-        result = int(round(value.value))
+        result = self._round_to_int(value.value)
         self.push(CellType.LONG, result)
 
     def _exec_cmp(self):
@@ -977,6 +985,10 @@ class QvmCpu:
                       expected='numeric',
                       got=value.type)
 
+        if isinstance(value.value, float) and \
+           not math.isfinite(value.value):
+            self.trap(TrapCode.INVALID_CELL_VALUE,
+                      type=CellType.LONG, value=value.value)
         int_value = math.floor(value.value)
         self.push(CellType.LONG, int_value)
 
@@ -1488,11 +1500,13 @@ for src, dst in itertools.product(numeric_types, numeric_types):
         continue
     def get_method(src, dst, name):
         conv_func = dst.py_type
-        if src.py_type == float and dst.py_type == int:
-            conv_func = lambda n: int(round(n))
+        to_int = (src.py_type == float and dst.py_type == int)
         def method(self):
             value = self.pop(src)
-            new_value = conv_func(value)
+            if to_int:
+                new_value = self._round_to_int(value)
+            else:
+                new_value = conv_func(value)
             self.push(dst, new_value)
             logger.info(f'Converted {src.name} {value} to '
                         f'{dst.name} {new_value}')
